@@ -6,7 +6,7 @@
 From Coq Require Import List String Ascii Bool Arith ZArith.
 From Helm Require Import Common.Assoc Common.Strs Values.Tree Values.Coalesce
   Misc.Panics Misc.PanicsStorage Misc.PanicsDeps Misc.PanicsIndex Misc.PanicsSort Misc.PanicsSchema
-  Values.Strvals Misc.PanicsStrvals Gen.C20Tables.
+  Misc.PanicsStrvalsLex Misc.PanicsStrvals Gen.C20Tables.
 Import ListNotations.
 Local Open Scope string_scope.
 
